@@ -144,7 +144,7 @@ func init() {
 				c02Run(c, c02Decode(idx, 4, 5), idx%2 == 1)
 			}},
 			{Name: "lattice", N: c02LatticeN, Run: c02Lattice, Exhaustive: true},
-			{Name: "random", N: func(c *Ctx) int { return tierN(c, 40000, 600000) }, Run: c02Random},
+			{Name: "random", N: func(c *Ctx) int { return tierN(c, 40000, 2000000) }, Run: c02Random},
 		},
 	})
 }
